@@ -4,6 +4,20 @@
 #define _GNU_SOURCE
 #endif
 #include "simb.hpp"
+#if !defined(SIMB_SANITIZED) && defined(__has_include)
+#if __has_include(<valgrind/memcheck.h>)
+#include <valgrind/memcheck.h>
+#define SIMB_HAVE_MEMCHECK 1
+#endif
+#endif
+#ifndef SIMB_HAVE_MEMCHECK
+#define RUNNING_ON_VALGRIND 0
+#define VALGRIND_MAKE_MEM_UNDEFINED(p, n) ((void)0)
+#define VALGRIND_MAKE_MEM_DEFINED(p, n) ((void)0)
+#define VALGRIND_CHECK_MEM_IS_DEFINED(p, n) ((void)0)
+#define VALGRIND_CHECK_VALUE_IS_DEFINED(v) ((void)0)
+#define VALGRIND_COUNT_ERRORS 0
+#endif
 #include <cerrno>
 #include <csetjmp>
 #include <csignal>
@@ -157,6 +171,7 @@ NOINSTR void send_result_and_exit() {
 		if (S.out_removed && it == S.outfiles.end()) S.sink[1] = "<output file removed>";
 	}
 	S.designated = S.plan->dash_o ? 1 : 0;
+	S.res.vg_errors = (uint32_t)VALGRIND_COUNT_ERRORS;
 	const std::string &out = S.sink[S.designated];
 	S.res.sink_len = out.size();
 	S.res.sink_hash = hash_bytes(out.data(), out.size());
@@ -231,6 +246,7 @@ NOINSTR char *arena_alloc(size_t n) {
 			fill_mem(user, n);
 			set_canaries(user, n);
 			S.res.lifo_reused++;
+			VALGRIND_MAKE_MEM_UNDEFINED(user, n);
 			return user;
 		}
 	}
@@ -245,6 +261,8 @@ NOINSTR char *arena_alloc(size_t n) {
 	fill_mem(user, n);
 	set_canaries(user, n);
 	S.blocks.push_back(user);
+	// under memcheck the fill pattern is data without definedness: what malloc returns is indeterminate
+	VALGRIND_MAKE_MEM_UNDEFINED(user, n);
 	return user;
 }
 
@@ -340,6 +358,9 @@ NOINSTR int in_seek(void *c, off64_t *pos, int whence) {
 
 NOINSTR ssize_t out_write(void *c, const char *buf, size_t n) {
 	OutStream *o = (OutStream *)c;
+	// C20: no output byte depends on uninitialised memory (reported by memcheck when the worker runs under it)
+	VALGRIND_CHECK_MEM_IS_DEFINED(buf, n);
+	VALGRIND_MAKE_MEM_DEFINED(buf, n);
 	long k = S.res.nwrite++;
 	const FaultB *f = find_fault("write", k);
 	if (S.write_dead || f) {
@@ -528,7 +549,7 @@ NOINSTR void *__wrap_realloc(void *old, size_t n) {
 	}
 	if (inplace) {
 		p = (char *)old;
-		if (n > os) fill_mem(p + os, n - os);
+		if (n > os) { fill_mem(p + os, n - os); VALGRIND_MAKE_MEM_UNDEFINED(p + os, n - os); }
 		h->size = n;
 		set_canaries(p, n);
 	} else {
@@ -612,6 +633,7 @@ NOINSTR void __wrap_exit(int status) {
 	}
 	// ... then flushes every open output stream
 	fflush(stdout);
+	VALGRIND_CHECK_VALUE_IS_DEFINED(status);
 	ev(0x78, (uint64_t)status);
 	finish(K_EXIT, status & 0xff);
 }
@@ -1064,6 +1086,9 @@ NOINSTR static void child_run(const Plan &p, int resfd, bool want_sink, bool wan
 }
 
 static bool g_arena_mapped = false;
+static std::vector<std::pair<uintptr_t, std::string>> g_syms;
+
+bool under_memcheck() { static int v = -1; if (v < 0) v = RUNNING_ON_VALGRIND ? 1 : 0; return v == 1; }
 
 Outcome run_plan(const Plan &p, bool want_sink, bool want_cov) {
 	Outcome o;
@@ -1101,6 +1126,16 @@ Outcome run_plan(const Plan &p, bool want_sink, bool want_cov) {
 	}
 	int st = 0;
 	while (waitpid(pid, &st, 0) < 0 && errno == EINTR) {}
+	std::string vglog;
+	if (under_memcheck()) {
+		// valgrind was started with --log-file=$SIMB_VG_LOGDIR/vg.%p: one file per forked child
+		if (const char *d = getenv("SIMB_VG_LOGDIR")) {
+			std::string lp = std::string(d) + "/vg." + std::to_string((long)pid);
+			FILE *lf = fopen(lp.c_str(), "r");
+			if (lf) { while ((n = (ssize_t)fread(tmp, 1, sizeof tmp, lf)) > 0) if (vglog.size() < (1 << 18)) vglog.append(tmp, (size_t)n); fclose(lf); }
+			unlink(lp.c_str());
+		}
+	}
 	if (buf.size() >= sizeof(Res) && WIFEXITED(st) && WEXITSTATUS(st) == 0) {
 		memcpy(&o.r, buf.data(), sizeof(Res));
 		size_t off = sizeof(Res);
@@ -1162,11 +1197,51 @@ Outcome run_plan(const Plan &p, bool want_sink, bool want_cov) {
 		}
 		o.signature = sig;
 	}
+	if (o.r.vg_errors && !vglog.empty()) {
+		// "==pid== Conditional jump or move depends on uninitialised value(s)" / "==pid==    at 0x...: fn (file.c:123)"
+		std::vector<std::string> lines;
+		size_t pos = 0;
+		while (pos < vglog.size()) {
+			size_t eol = vglog.find('\n', pos);
+			std::string l = vglog.substr(pos, eol == std::string::npos ? std::string::npos : eol - pos);
+			pos = eol == std::string::npos ? vglog.size() : eol + 1;
+			size_t e2 = l.find("== ");
+			if (l.compare(0, 2, "==") == 0 && e2 != std::string::npos) l = l.substr(e2 + 3); else if (l.compare(0, 2, "==") == 0) l = "";
+			lines.push_back(l);
+		}
+		std::string kind;
+		int nf = 0;
+		for (size_t i = 0; i < lines.size(); i++) {
+			const std::string &l = lines[i];
+			if (kind.empty()) {
+				if (l.empty() || l[0] == ' ') continue;
+				kind = l.find("Conditional jump") != std::string::npos ? "branch" : l.find("Use of uninitialised") != std::string::npos ? "use" :
+				       l.find("Uninitialised byte") != std::string::npos || l.find("uninitialised byte") != std::string::npos ? "output-byte" : l.find("Uninitialised value") != std::string::npos ? "exit-status" :
+				       l.find("Invalid read") != std::string::npos ? "invalid-read" : l.find("Invalid write") != std::string::npos ? "invalid-write" : l.substr(0, 40);
+				o.vg_sig = kind;
+				o.vg_text = l;
+				continue;
+			}
+			if (l.empty()) break;  // end of the first error
+			if (o.vg_text.size() < 1500) o.vg_text += "\n" + l;
+			size_t c = l.find(": ");
+			if ((l.find("at 0x") == std::string::npos && l.find("by 0x") == std::string::npos) || c == std::string::npos || nf >= 2) continue;
+			std::string rest = l.substr(c + 2);
+			size_t sp = rest.find(' ');
+			std::string fn = rest.substr(0, sp), where = sp == std::string::npos ? "" : rest.substr(sp);
+			// cproc's functions only: compiled from a .c file, not the harness, not libc
+			if (where.find(".c:") == std::string::npos || fn.compare(0, 2, "__") == 0 || fn.compare(0, 4, "sb::") == 0 || where.find("(in ") != std::string::npos) continue;
+			bool ours = false;
+			for (auto &sy : g_syms) if (sy.second == fn) { ours = true; break; }
+			if (!ours) continue;
+			o.vg_sig += (nf ? "<" : " ") + fn;
+			nf++;
+		}
+	} else if (o.r.vg_errors) o.vg_sig = "unattributed";
 	return o;
 }
 
 // ---------------------------------------------------------------- symbols
-static std::vector<std::pair<uintptr_t, std::string>> g_syms;
 
 void symbols_init(const char *self) {
 	std::string cmd = std::string("nm -n --defined-only ") + self + " 2>/dev/null";
